@@ -311,6 +311,18 @@ func genCases(thorough bool) []caseSpec {
 		out = append(out, caseSpec{actor: 0, acts: []chain.Action{opAct(0, only1, 1), opAct(1, only2, append([]int{2}, s...)...)}, what: fmt.Sprintf("second action declares only k2 but also touches k1 (steps %v), first action declares k1", s)})
 		out = append(out, caseSpec{actor: 0, acts: []chain.Action{opAct(0, only2, append([]int{2}, s...)...), opAct(1, only1, 1)}, what: fmt.Sprintf("first action declares only k2 but also touches k1 (steps %v), second action declares k1", s)})
 	}
+	// ---- the same key declared with different permissions by two actions of the list: the
+	// transaction scope is the UNION of the declarations
+	k1Read := []rig.KeyPerm{{Key: k1, Perm: state.Read}}
+	k1All := []rig.KeyPerm{{Key: k1, Perm: state.All}}
+	k2All := []rig.KeyPerm{{Key: k2, Perm: state.All}}
+	k2Read := []rig.KeyPerm{{Key: k2, Perm: state.Read}}
+	out = append(out,
+		caseSpec{actor: 0, acts: []chain.Action{opAct(0, k1All, 1), opAct(1, k1Read, 0)}, what: "k1 declared All by a writer, then Read by a reader"},
+		caseSpec{actor: 0, acts: []chain.Action{opAct(0, k1All, 5), opAct(1, k1Read, 0), opAct(2, k1Read, 0)}, what: "k1: append (All), read (Read), read (Read)"},
+		caseSpec{actor: 0, acts: []chain.Action{opAct(0, k2All, 2), opAct(1, k2Read)}, what: "k2 created (All) then declared Read by an action that does not touch it"},
+		caseSpec{actor: 0, acts: []chain.Action{opAct(0, k1Read, 0), opAct(1, k1All, 3)}, what: "k1 declared Read by a reader, then All by a deleter"},
+	)
 	return out
 }
 
